@@ -728,6 +728,29 @@ pub fn oracle_c12(cfg: &LwCfg, si: &ScriptInfo, tr: &Trace, check_resend_livenes
                 }
             }
         }
+        // "retransmitted until acknowledged" needs a finite form: a fragment that is still unacknowledged is not passed over while another one
+        // is transmitted again and again. Retransmission intervals grow to 4 RTT estimates and stay there, for every fragment alike, so after
+        // its own last transmission no other fragment can legitimately go out six times before this one is due again.
+        {
+            let is_rel = |pid: &u32| op_of_id.get(pid).map_or(false, |op| matches!(si.ops[*op].kind, OpKind::Send { mode: SendMode::Reliable, .. } | OpKind::Send { mode: SendMode::Persistent, .. }));
+            let heavy: Vec<(&(u32, u16), Vec<u32>)> = tx.iter().filter(|(k, l)| l.len() >= 6 && is_rel(&k.0)).map(|(k, l)| { let mut v: Vec<u32> = l.iter().map(|(e, _)| tr.ems[*e].step_no).collect(); v.sort(); (k, v) }).collect();
+            if !heavy.is_empty() {
+                for ((pid, frag), list) in tx.iter() {
+                    if !is_rel(pid) { continue; }
+                    let rel = pid.wrapping_sub(start_base) & 0xFFFFF;
+                    let last_b = list.iter().map(|(e, _)| tr.ems[*e].step_no).max().unwrap();
+                    let ack_b = acks.iter().filter(|a| list.iter().any(|(_, f)| a.frames.contains(f)) || (a.pbase_rel < 0x80000 && rel < a.pbase_rel)).map(|a| a.step_no).min().unwrap_or(u32::MAX);
+                    for (ka, steps) in heavy.iter() {
+                        if **ka == (*pid, *frag) { continue; }
+                        let n = steps.iter().filter(|s| **s > last_b && **s <= ack_b).count();
+                        if n >= 6 {
+                            push(viol("C12.until-ack", "C12.until-ack:passed-over".into(), format!("side {}: fragment {} of packet id {} was last transmitted in step {} and never acknowledged (no ack for a frame carrying it, no window base beyond it, up to step {}), yet it was not retransmitted while fragment {} of packet id {} went out {} more times", side, frag, pid, last_b, if ack_b == u32::MAX { "the end".to_string() } else { ack_b.to_string() }, ka.1, ka.0, n)), &mut out);
+                            break;
+                        }
+                    }
+                }
+            }
+        }
         let _ = frame_em;
     }
     out
